@@ -23,6 +23,7 @@ from pyvc.api import *
 
 SM = "nemoguardrails/colang/v2_x/runtime/statemachine.py"
 classes({"State": [], "FlowState": [], "InternalEvent": []})
+consts_from("nemoguardrails.colang.v2_x.runtime.flows", "FlowStatus", ["WAITING", "STARTING", "STARTED", "STOPPING", "STOPPED", "FINISHED"])
 
 FS_WF = ("all(is_inst(val(state.flow_states, f), 'FlowState') and has(val(state.flow_states, f), 'activated') and "
          "    is_int(val(state.flow_states, f).activated) and has(val(state.flow_states, f), 'parent_uid') and "
@@ -90,3 +91,51 @@ for _fn in ("_abort_flow", "_finish_flow"):
         ],
         raises={},
     )
+
+# ---------------------------------------------------------------------------------------------------------------------------
+# TAIL of _abort_flow: an aborted instance holds no head position, is STOPPED, is taken out of its parent's children (unless it is an
+# activated instance) and announces its failure exactly once
+# ---------------------------------------------------------------------------------------------------------------------------
+opaque("failed_event", assigns=[], raises=[], result_class="InternalEvent", log_result="made",
+       note="FlowState.failed_event(scores): a new InternalEvent (FlowFailed of this flow); no other effect")
+opaque("_push_internal_event", assigns=[], log="pushed_right", log_arg=1, raises=[],
+       note="_push_internal_event(state, event): the event goes to the RIGHT end of state.internal_events (recorded in the ghost trace `pushed_right`)")
+
+PARENT = "val(state.flow_states, flow_state.parent_uid)"
+UNLINK = "(old(flow_state.activated == 0 and truthy(flow_state.parent_uid) and has(state.flow_states, flow_state.parent_uid)))"
+contract(
+    SM, "_abort_flow", prop="C06", block=("flow_state.heads.clear()", "_push_internal_event(state, event)"),
+    vars={"state": "V", "flow_state": "V", "matching_scores": "V", "event": "V"},
+    ghost_lists=["pushed_right", "made"],
+    requires=STATE + ONE_FS + ["has(flow_state, 'heads')", "is_dict(flow_state.heads)", "flow_state.heads is not state.flow_states", "has(flow_state, 'status')", "has(flow_state, 'uid')",
+                               "is_str(flow_state.uid)",
+                               "implies(truthy(flow_state.parent_uid) and has(state.flow_states, flow_state.parent_uid), "
+                               "        has(%s, 'child_flow_uids') and is_list(%s.child_flow_uids))" % (PARENT, PARENT)],
+    ensures=[
+        "len(flow_state.heads) == 0", "flow_state.status == 'stopped'",
+        "llen(pushed_right) == 1 and llen(made) == 1 and item(pushed_right, 0) is item(made, 0)",
+        # unlinked from the parent: one occurrence of its uid less, nothing else changes in that list
+        "implies(%s, llen(old(%s.child_flow_uids)) == old(llen(%s.child_flow_uids)) - 1)" % (UNLINK, PARENT, PARENT),
+        "implies(not %s, all(unchanged(val(state.flow_states, f)) or val(state.flow_states, f) is flow_state for f in keys(state.flow_states)))" % UNLINK,
+    ],
+    raises={"ValueError": "%s and not any(u == flow_state.uid for u in %s.child_flow_uids)" % (UNLINK.replace("old(", "(", 1), PARENT)},
+)
+
+# the same for a flow that finishes (not the main flow): FINISHED, unlinked from its parent unless activated, one FlowFinished
+opaque("finished_event", assigns=[], raises=[], result_class="InternalEvent", log_result="made",
+       note="FlowState.finished_event(scores): a new InternalEvent (FlowFinished of this flow); no other effect (its content is C08's contract)")
+contract(
+    SM, "_finish_flow", prop="C06", block=("flow_state.status = FlowStatus.FINISHED", "_push_internal_event(state, event)"),
+    vars={"state": "V", "flow_state": "V", "matching_scores": "V", "event": "V"},
+    ghost_lists=["pushed_right", "made"],
+    requires=STATE + ONE_FS + ["has(flow_state, 'status')", "has(flow_state, 'uid')", "is_str(flow_state.uid)",
+                               "implies(truthy(flow_state.parent_uid) and has(state.flow_states, flow_state.parent_uid), "
+                               "        has(%s, 'child_flow_uids') and is_list(%s.child_flow_uids))" % (PARENT, PARENT)],
+    ensures=[
+        "flow_state.status == 'finished'",
+        "llen(pushed_right) == 1 and llen(made) == 1 and item(pushed_right, 0) is item(made, 0)",
+        "implies(%s, llen(old(%s.child_flow_uids)) == old(llen(%s.child_flow_uids)) - 1)" % (UNLINK, PARENT, PARENT),
+        "implies(not %s, all(unchanged(val(state.flow_states, f)) or val(state.flow_states, f) is flow_state for f in keys(state.flow_states)))" % UNLINK,
+    ],
+    raises={"ValueError": "%s and not any(u == flow_state.uid for u in %s.child_flow_uids)" % (UNLINK.replace("old(", "(", 1), PARENT)},
+)
